@@ -694,7 +694,9 @@ func (w *world) close() {
 		os.Exit(2)
 	}
 	w.cancel()
-	w.bus.Close()
+	// The bus is deliberately left open (its idle goroutine is garbage of this short-lived process): the withdrawal
+	// helper of the real code dereferences a nil subscriber when Subscribe fails on a closed bus
+	// (lease_withdraw.go:62-69), which would kill the whole replay process.
 	setWorld(nil)
 }
 
